@@ -66,8 +66,11 @@ func run(c *core.Ctx) {
 				}
 				// thorough: every bit of header, IV and tag, every cut position; ciphertext
 				// bits fully for short frames, sampled for long ones. quick: seeded sample.
-				all := c.Thorough() && (adv.Fld != "ct" || n <= 512)
-				if adv.Op == "trunc" && c.Thorough() && n <= 600 {
+				// (full expansion for one size plan and one receive API per behaviour;
+				// the other combinations get the seeded sample)
+				full := c.Thorough() && sp == sizePlans[si%len(sizePlans)] && api == si%4
+				all := full && (adv.Fld != "ct" || n <= 512)
+				if adv.Op == "trunc" && full && n <= 600 {
 					all = true
 				}
 				if all {
@@ -79,7 +82,7 @@ func run(c *core.Ctx) {
 				} else {
 					k := 3
 					if c.Thorough() {
-						k = 64
+						k = 12
 					}
 					for t := 0; t < k; t++ {
 						v := base
